@@ -70,3 +70,47 @@ def content (codec : Bytes → Bytes) (l : Leaf) (mem : Mem) : Bytes :=
   | .bufferProtocol => mem l.addr
 
 end Ts.Stage
+
+/-! ## Histories: several pending snapshots, mutations and background writes interleaved (C09 over time) -/
+namespace Ts.Stage
+
+/-- One step of a job's life as far as staging is concerned. -/
+inductive Op where
+  | mutate (f : Mem → Mem)             -- the application changes its state in place, in any way
+  | asyncTake (leaves : List Leaf)      -- `async_take` of these leaves returns (everything is staged at that point)
+  | write (snap i : Nat)                -- the background thread of pending snapshot `snap` writes its `i`-th buffer
+
+/-- A pending snapshot: its leaves, the staged buffers, and (ghost) the application memory when `async_take` returned. -/
+structure Pending where
+  leaves : List Leaf
+  bufs : List Buf
+  memAtCall : Mem
+
+structure HState where
+  mem : Mem
+  pend : List Pending
+  written : List (Nat × Nat × Bytes)      -- (snapshot, buffer index, bytes that reached storage)
+
+def HState.init (mem : Mem) : HState := ⟨mem, [], []⟩
+
+/-- the step function, with the staging function as a parameter (`stage codec true` in the code) -/
+def hstepWith (stg : Leaf → Mem → Buf) (s : HState) : Op → HState
+  | .mutate f => { s with mem := f s.mem }
+  | .asyncTake ls => { s with pend := s.pend ++ [⟨ls, ls.map (fun l => stg l s.mem), s.mem⟩] }
+  | .write k i =>
+    match s.pend[k]? with
+    | none => s
+    | some p =>
+      match p.bufs[i]? with
+      | none => s
+      | some b => { s with written := s.written ++ [(k, i, resolve s.mem b)] }
+
+def hrunWith (stg : Leaf → Mem → Buf) (s : HState) (ops : List Op) : HState := ops.foldl (hstepWith stg) s
+
+def hrun (codec : Bytes → Bytes) := hrunWith (stage codec true)
+
+/-- a (hypothetical) staging function that recycles one staging buffer per tensor address across snapshots: what is
+staged is a reference into a pool that the next staging of the same tensor overwrites -/
+def stagePooled (l : Leaf) (_mem : Mem) : Buf := .alias l.addr
+
+end Ts.Stage
